@@ -14,6 +14,13 @@ LEVEL = "proof"
 DOMAINS = ['Design']
 
 
+def site_of(msg):
+    """'@function' where the exception was raised (ir.raise_site), part of the finding's identity."""
+    import re
+    m = re.match(r"\[@([\w?]+)\]", msg or "")
+    return "@" + m.group(1) if m else ""
+
+
 def fails(p, strat, exc, n=3):
     if exc == "Timeout":
         r = ir.synthesize_isolated(p, n, strat, timeout=20)
@@ -39,7 +46,7 @@ def run(ctx, res):
             res.layer("outcome-" + s, rr["status"] == "ok")
             if rr["status"] != "ok":
                 exc = rr["exc"]
-                _design.report(res, "exc:%s:%s" % (s, exc), r,
+                _design.report(res, "exc:%s:%s%s" % (s, exc, site_of(rr.get("msg"))), r,
                                lambda p, s=s, exc=exc, n=r.get("requested", 3): fails(p, s, exc, n),
                                "%s raised %s (%s)" % (s, exc, (rr.get("msg") or "")[:80]))
         # the uniform samplers on a sample of the programs (slower)
@@ -52,7 +59,7 @@ def run(ctx, res):
                     exc = out[1] if out[0] == "error" else "process-terminated"
                     if out[0] == "crash":
                         out = ("crash", "process-terminated", "the sampler terminated the Python process (status %s)" % out[1])
-                    _design.report(res, "exc:%s:%s" % (s, exc), r, lambda p, s=s, exc=exc: fails(p, s, exc),
+                    _design.report(res, "exc:%s:%s%s" % (s, exc, site_of(out[2])), r, lambda p, s=s, exc=exc: fails(p, s, exc),
                                    "%s raised %s (%s)" % (s, exc, out[2][:80]))
 
 
